@@ -9,7 +9,7 @@ from ..harness import Violation
 ID = "C15"
 LEVEL = "exploration"
 RULE = ("(a) in memory, metamorphic: Hypothesis-generated sessions run once with a transport that accepts everything and once with generated per-call write capacities "
-        "(1 byte .. unlimited, varying per call, the accepted count returned; also a transport returning None; also one write call that fails outright -- drawn as a fraction of the session's write calls, and swept exhaustively over every write call of 6 fixed sessions x 5 short-write patterns x {timeout, broken pipe} x both APIs: a call that then returns normally must not leave an incomplete message at the peer): the device-side byte stream must decode to the same packet sequence "
+        "(1 byte .. unlimited, varying per call, the accepted count returned; also a transport returning None; also a slow link where each write call takes 5-50 ms of virtual time while read_timeout_s is 0.1-0.5 s; also calls that accept nothing and report 0; also one write call that fails outright -- drawn as a fraction of the session's write calls, and swept exhaustively over every write call of 6 fixed sessions x 5 short-write patterns x {timeout, broken pipe} x both APIs: a call that then returns normally must not leave an incomplete message at the peer): the device-side byte stream must decode to the same packet sequence "
         "and all results must be equal, or the call raised. (b) real loopback TCP: AdbDevice(TcpTransport)/AdbDeviceAsync(TcpTransportAsync) push 64 KiB..3 MiB to a socket server "
         "running the simulator with SO_RCVBUF=4096, a slow reader and client SO_SNDBUF=4096, transport_timeout_s set: content on the simulator == source (a raise is a violation here: the peer is healthy); plus 100 KB / 1 MiB written directly through TcpTransport / TcpTransportAsync with 4 KiB socket buffers to a slow reader: what bulk_write reported as written is what the peer has after close(). "
         "Non-trivial: >= 1 write call accepted fewer bytes than offered. Distinct = case hash.")
@@ -19,6 +19,14 @@ ASSUMPTIONS = ["in-memory transport reports the accepted count like socket.send 
 @st.composite
 def mem_cases(draw):
     case = draw(sc.session(max_ops=4, with_wcap=True))
+    if case["transport"].get("wcap") and draw(st.sampled_from([False, False, True])):
+        # a slow link: each write call takes 5-50 ms, so that a message needing many short writes is on the wire for longer than the
+        # operations' read_timeout_s (which bounds waiting for the device, not sending)
+        case["transport"]["wdelay"] = draw(st.sampled_from([0.005, 0.02, 0.05]))
+        for o in case["ops"]:
+            o["read_timeout_s"] = draw(st.sampled_from([0.1, 0.5]))
+            if o["op"] == "push" and not o.get("mtime"):
+                o["mtime"] = 1234          # (mtime 0 means "now", and the two runs being compared do not share a clock)
     if draw(st.sampled_from([False, False, False, True])):
         case["transport"]["ret_none"] = True
     elif draw(st.sampled_from([False, False, True])):
@@ -71,7 +79,7 @@ def check_mem(case):
     if case["transport"].get("faults") or "fault_frac" in case["transport"]:
         return check_faulted(case)
     base = dict(case)
-    base["transport"] = dict(case["transport"], wcap=[], ret_none=False)
+    base["transport"] = dict(case["transport"], wcap=[], ret_none=False, wdelay=0)
     o1 = runner.run(base)
     o2 = runner.run(case)
     info = {"classes": [o2.api]}
